@@ -175,7 +175,7 @@ Lemma policy_selected_matches : forall ds pt m u,
             matches (parse_pattern (split_url (C13.Model.d_url d))) (split_url u) = true.
 Proof.
   intros ds pt m u HB HK HS.
-  destruct (C13.Property.C13_sound ds HK pt m u HB) as [HR HD].
+  destruct (C13.Property.C13_sound_lax ds HK pt m u HB) as [HR HD].
   destruct HS as [[r Hr]|[g Hg]].
   - destruct (HR r Hr) as (d & Hd & Hm & Hin & Hen & HM).
     exists d. repeat split; try assumption.
